@@ -83,6 +83,7 @@ struct Inner {
     lock_edges: Vec<LockEdge>,
     consumer_stalled: bool,
     free_run: HashMap<Role, bool>,
+    gone: HashMap<Role, bool>,
 }
 
 pub struct Controller {
@@ -102,6 +103,7 @@ impl Drop for Ctx {
         let mut g = self.ctl.lock();
         let st = g.roles.entry(self.role).or_insert(RoleState::Unknown);
         if !matches!(st, RoleState::Dead(_)) { *st = RoleState::Exited; }
+        g.gone.insert(self.role, true);
         drop(g);
         self.ctl.cv.notify_all();
     }
@@ -119,7 +121,7 @@ impl Controller {
                 roles: HashMap::new(), permits: HashMap::new(), done: HashMap::new(),
                 clients: HashMap::new(), client_release: HashMap::new(),
                 stepping: HashMap::new(), point_state: HashMap::new(), point_release: HashMap::new(),
-                oracle: Vec::new(), lock_edges: Vec::new(), consumer_stalled: false, free_run: HashMap::new(),
+                oracle: Vec::new(), lock_edges: Vec::new(), consumer_stalled: false, free_run: HashMap::new(), gone: HashMap::new(),
             }),
             cv: Condvar::new(),
             tick_tx: Mutex::new(None),
@@ -151,6 +153,11 @@ impl Controller {
 
     pub fn role_state(&self, role: Role) -> RoleState {
         self.lock().roles.get(&role).cloned().unwrap_or(RoleState::Unknown)
+    }
+
+    /// True once the thread registered under `role` has finished unwinding / exiting (everything it owned is dropped).
+    pub fn role_gone(&self, role: Role) -> bool {
+        self.lock().gone.get(&role).copied().unwrap_or(false)
     }
 
     pub fn client_state(&self, tid: usize) -> ClientState {
